@@ -17,7 +17,7 @@ CCACHE = shutil.which("ccache")
 os.environ.setdefault("CCACHE_DIR", os.path.join(BUILD, "ccache"))
 os.environ.setdefault("CCACHE_MAXSIZE", "2G")
 
-ASAN_ENV = "exitcode=99:abort_on_error=0:detect_leaks=0:allocator_may_return_null=1:detect_stack_use_after_return=0:handle_abort=1:malloc_context_size=12"
+ASAN_ENV = "quarantine_size_mb=16:thread_local_quarantine_size_kb=256:exitcode=99:abort_on_error=0:detect_leaks=0:allocator_may_return_null=1:detect_stack_use_after_return=0:handle_abort=1:malloc_context_size=12"
 ASAN_ENV_REPLAY = ASAN_ENV.replace("detect_leaks=0", "detect_leaks=1")
 
 
